@@ -27,7 +27,13 @@ type Call struct {
 	ArgVals []Val  `json:"argvals"`
 }
 
+type Assign struct {
+	Lhs string `json:"lhs"`
+	Rhs string `json:"rhs"`
+}
+
 type Func struct {
+	Assigns []Assign `json:"assigns"`
 	Strings []string `json:"strings"`
 	Ints    []string `json:"ints"`
 	Calls   []Call   `json:"calls"`
@@ -174,7 +180,7 @@ func main() {
 			if !ok || fd.Body == nil {
 				continue
 			}
-			fn := &Func{Strings: []string{}, Ints: []string{}, Calls: []Call{}}
+			fn := &Func{Strings: []string{}, Ints: []string{}, Calls: []Call{}, Assigns: []Assign{}}
 			fn.Src = src(fset, fd)
 			// function-local constants
 			local := &evaluator{consts: map[string]constant.Value{}}
@@ -183,7 +189,23 @@ func main() {
 			}
 			ast.Inspect(fd.Body, func(n ast.Node) bool {
 				switch x := n.(type) {
+				case *ast.AssignStmt:
+					if len(x.Lhs) == len(x.Rhs) {
+						for i := range x.Lhs {
+							fn.Assigns = append(fn.Assigns, Assign{src(fset, x.Lhs[i]), src(fset, x.Rhs[i])})
+						}
+					}
 				case *ast.GenDecl:
+					if x.Tok == token.VAR {
+						for _, sp := range x.Specs {
+							vs := sp.(*ast.ValueSpec)
+							if len(vs.Names) == len(vs.Values) {
+								for i, name := range vs.Names {
+									fn.Assigns = append(fn.Assigns, Assign{name.Name, src(fset, vs.Values[i])})
+								}
+							}
+						}
+					}
 					if x.Tok == token.CONST {
 						for _, sp := range x.Specs {
 							vs := sp.(*ast.ValueSpec)
